@@ -35,8 +35,11 @@ SLEEP = dict(family="data", groups=["sleep", "connect", "bpub", "cack", "back", 
 TERM = dict(family="data", groups=["term", "sleep", "bpub", "pub", "time", "connect"], msgids=[1], qoss=[1],
             depth=(3, 4), auth=[False], creds=[False])
 
+DATA_PUBX = dict(family="data", groups=["reg", "bpub", "cack", "pub"], msgids=[1], qoss=[0, 1], depth=(3, 4),
+                 auth=[False], creds=[False])
+
 PLAN = {
-    "C01": [DATA_PUB], "C02": [DATA_BPUB], "C03": [DATA_CTRL, DATA_PUB], "C04": [DATA_IDS], "C06": [DATA_MIX],
+    "C01": [DATA_PUB, DATA_PUBX], "C02": [DATA_BPUB], "C03": [DATA_CTRL, DATA_PUB], "C04": [DATA_IDS], "C06": [DATA_MIX],
     "C07": [CONNECT], "C08": [CONNECT], "C09": [CONNECT], "C10": [CONNECT], "C11": [SLEEP], "C12": [SLEEP],
     "C13": [TERM, CONNECT], "C14": [TERM, CONNECT], "C23": [CONNECT, DATA_BPUB, SLEEP], "C24": [CONNECT, DATA_PUB, DATA_CTRL],
     "C34": [SLEEP, CONNECT],
